@@ -43,7 +43,7 @@ SEARCH_ALWAYS_IN_THOROUGH = False
 ALPHA_FULL = list('CcNOnoBSlrFH[]()12%0=#-/\\.:+@;!,~>^| 9')
 ALPHA_CORE = list('CcNOl()12%=-/.[]@H+>')
 ALPHA_BRACKET = list('19C0cHNasel@+-2:t4Z')
-ALPHA_STEREO = list('C=/\\()1')
+ALPHA_STEREO = list('C=/\\()1-')
 ALPHA_STEREO_R = ['C', 'C', 'C', '=', '=', '/', '\\', '(', ')', '1', '1', '2', 'N', 'c', '[C@H]', '[C@@]', '.', '#', 'F']
 
 
@@ -256,10 +256,10 @@ def gen_mol(rng, size=None, depth=0):
                 continue
             next_ring[0] = k + 1 if k < 98 else 1
             open_rings.append(k)
-            out.append(rng.choice(['', '', '', '=', '/', '-']) + ring_label(k))
+            out.append(rng.choice(['', '', '', '=', '/', '-', '\\', '#', ':']) + ring_label(k))
         if open_rings and rng.random() < 0.3 and i > 1:
             k = open_rings.pop(rng.randrange(len(open_rings)))
-            out.append(rng.choice(['', '', '', '', '=', '\\']) + ring_label(k))
+            out.append(rng.choice(['', '', '', '', '=', '\\', '/', '-', ':']) + ring_label(k))
         # branch
         if depth < 3 and rng.random() < 0.2:
             inner = gen_mol(rng, rng.randint(1, 4), depth + 1)
@@ -267,8 +267,28 @@ def gen_mol(rng, size=None, depth=0):
     # close what is open (mostly)
     if out and rng.random() < 0.93:
         for k in open_rings:
-            out.append(rng.choice(ORGANIC[:4]) + ring_label(k))
+            out.append(rng.choice(ORGANIC[:4]) + rng.choice(['', '', '', '-', '/', '\\']) + ring_label(k))
     return ''.join(out)
+
+
+SUBST = ['F', 'Cl', 'Br', 'I', 'O', 'N', 'C', 'CC', 'OC', 'C#N', 'C(=O)O', 'c1ccccc1', 'S', 'C(F)(F)F', 'N(C)C', 'CCC']
+STEREO_TEMPLATES = [
+    '{a}/C=C/{b}', '{a}/C=C\\{b}', '{a}\\C=C/{b}', '{a}\\C=C\\{b}', '{a}/C({c})=C({d})/{b}', '{a}/C({c})=C(/{b}){d}',
+    'C(/{a})=C/{b}', 'C(\\{a})=C/{b}', '{a}/C=C/C=C/{b}', '{a}/C=C\\C=C/{b}', '{a}/C=C/{b}.{c}/C=C\\{d}',
+    '[C@H]({a})({b}){c}', '[C@@H]({a})({b}){c}', '{a}[C@H]({b}){c}', '{a}[C@@H]({b}){c}', '{a}[C@]({b})({c}){d}',
+    '{a}[C@@]({b})({c}){d}', '{c}.[C@H]({a})({b}){d}', '{a}[C@H]1CC[C@@H]({b})CC1', '{a}[C@H]1CC[C@H]({b})CC1',
+    'C1C[C@H]({a})[C@@H]({b})C1', '{a}[C@@H]1CCCC[C@H]1{b}', '[C@H]1({a})CCCC[C@@H]1{b}', '{a}/C=C1/CCCC({b})C1',
+    '{a}/C=C/1CCCC({b})C1', 'C1=C/CCCCCC/1', '{a}/C=C/[C@H]({b}){c}', '{a}[C@H]({b})/C=C\\{c}', '{a}/N=C/{b}',
+    '{a}/C=N/O', '{a}C(=C/{b})/{c}', '{a}[C@H]({b})[C@@H]({c})[C@H]({d})O', 'O[C@H]1[C@H]({a})O[C@H]({b})[C@@H]1O',
+    '{a}C=[C@]=C{b}', '{a}C=[C@@]=C{b}', '{a}/C=C=C=C/{b}', '{a}/C=C=C=C\\{b}', '{a}[C@H]({b})C%12CC%12',
+    '{a}/C=C/%11.C%11{b}', '{a}/C=C(/{b})1CC1', '[C@H]({a})1({b})CC1{c}', '{a}[C@]12CC1C2{b}', 'N[C@@H]({a})C(=O)O',
+]
+
+
+def gen_stereo(rng):
+    t = rng.choice(STEREO_TEMPLATES)
+    subs = rng.sample(SUBST, 4)
+    return t.format(a=subs[0], b=subs[1], c=subs[2], d=subs[3])
 
 
 def gen_cx(rng, natoms_hint=6, nmol=3):
@@ -367,6 +387,14 @@ def streams(ctx):
         yield 'handmade', s
     for s in repo_test_strings():
         yield 'repo-tests', s
+    # every pair of bond symbols on the two ends of a ring closure, aliphatic / aromatic / mixed ring atoms
+    syms = ['', '-', '=', '#', ':', '/', '\\', '~', '.']
+    for o in syms:
+        for c in syms:
+            for t in ('C{o}1CCC{c}1', 'c{o}1cccc{c}1', 'C{o}1cccc{c}1', 'F/C=C{o}1CCCC{c}1', 'C{o}%12CC(C{c}%12)F', 'F{o}1.Cl{c}1',
+                      'C{o}1CC=C{c}1/F', 'C(F){o}1CC{c}1', 'C{o}1{c}1', 'C{o}1C{c}1', 'F/C=C{o}1CCOC{c}1', 'F\\C(Cl)=C{o}1CCOC{c}1',
+                      'C{o}1CCOC{c}1=C/F', 'F/C=C/C=C{o}1COCC{c}1'):
+                yield 'ring-bond-grid', t.format(o=o, c=c)
     # exhaustive short strings
     n_full = 3 if quick else 4
     for s in all_strings(ALPHA_FULL, n_full):
@@ -415,6 +443,8 @@ def streams(ctx):
             s = gen_reaction(rng)
         gen.append(s)
         yield 'grammar', s
+    for _ in range(1500 if quick else 12000):
+        yield 'stereo-templates', gen_stereo(rng)
     base = gen + corpus
     n_cor = 2500 if quick else 20000
     for _ in range(n_cor):
@@ -496,6 +526,8 @@ def correspond(ctx):
     # standing relational stream: the real reader judged by the independent reference reader + RDKit
     skip = ('exhaustive-core',) if ctx.quick else ()
     n_or = 0
+    known_sigs = {f['signature'] for f in core.load_findings('C03') if f['status'] == 'known'}
+    shrunk = set()
     for tag, s in cases:
         if tag.startswith(skip) if skip else False:
             continue
@@ -504,6 +536,9 @@ def correspond(ctx):
         ctx.count(('O', s), len(s) >= 2)
         if r is not None:
             ctx.dist('oracle:' + r[0])
+            if r[0] not in known_sigs and r[0] not in shrunk:  # first unlisted failure of this kind: shrink it
+                shrunk.add(r[0])
+                s, r = shrink(s, r)
             ctx.fail(r[0], r[1], {'smiles': s})
     ctx.dist('oracle:judged', n_or)
     for name, lst in bad.items():
@@ -638,7 +673,36 @@ def classify_reject(s, kind, gs):
     return 'other'
 
 
-def oracle(s):
+_STEREO_BAD = __import__('re').compile(r'\[[0-9]*(?!C@)[A-Za-z][a-z]?@')
+
+
+def stereo_judgement(s, obj):
+    """configuration (chirality marks, / \\ marks) judged with RDKit: the molecule chython built, written back by chython
+    and re-read by RDKit, must have the same canonical isomeric SMILES as the input read by RDKit directly.
+    Domain: strings RDKit reads and sanitises, chirality marks on carbon only. Returns None or (signature, what)."""
+    if not any(c in s for c in '@/\\') or _STEREO_BAD.search(s):
+        return None
+    from rdkit import Chem
+    rm = Chem.MolFromSmiles(s)
+    if rm is None:
+        return None
+    try:
+        w = str(obj)
+    except Exception:
+        return None              # the writer is not what is judged here
+    rm2 = Chem.MolFromSmiles(w)
+    if rm2 is None:
+        return None
+    a, b = Chem.MolToSmiles(rm), Chem.MolToSmiles(rm2)
+    if a == b:
+        return None
+    if Chem.MolToSmiles(rm, isomericSmiles=False) != Chem.MolToSmiles(rm2, isomericSmiles=False):
+        return None              # constitution / aromaticity perception differences are not a stereo judgement
+    return ('C03/wrong-configuration/vs-rdkit',
+            f'smiles({s!r}) was built as {w}: RDKit reads the input as {a} but the built molecule as {b}')
+
+
+def oracle(s, stereo=True):
     """property-level judgement of ONE string on the real code (never consults the Lean model).
     returns None if the property holds, else (signature, what)"""
     from . import c03_ref as R
@@ -709,6 +773,8 @@ def oracle(s):
             atoms, bonds, _ = real_view([obj])
             if rv[0] != atoms or rv[1] != bonds:
                 return 'C03/wrong-graph/vs-rdkit', f'smiles({s!r}): {atoms} {bonds} but RDKit reads {rv}'
+        if stereo and not gs.dir_conflict:  # contradictory marks on the two ends of a ring bond have no defined meaning
+            return stereo_judgement(s, obj)
     return None
 
 
@@ -727,6 +793,23 @@ def probe(inp):
     return False, '; '.join(f'smiles({s!r}): property holds' for s in ss)
 
 
+def shrink(s, r):
+    """smallest string (by deleting characters) on which the oracle reports the same signature"""
+    changed = True
+    while changed and len(s) > 1:
+        changed = False
+        for w in (8, 6, 5, 4, 3, 2, 1):  # delete windows, large ones first (a bracket atom, a branch)
+            for i in range(len(s) - w + 1):
+                t = s[:i] + s[i + w:]
+                q = oracle(t) if t else None
+                if q and q[0] == r[0]:
+                    s, r, changed = t, q, True
+                    break
+            if changed:
+                break
+    return s, r
+
+
 def search(ctx):
     """failing-input search: property-level oracle on the real code, starting from the disagreeing strings, then
     their single-/double-edit neighbourhood, then handmade + corrupted grammar strings"""
@@ -741,6 +824,8 @@ def search(ctx):
         tried.add(s)
         r = oracle(s)
         if r:
+            if r[0] not in found:  # first input of this kind: shrink it (greedy single-character deletion)
+                s, r = shrink(s, r)
             found.add(r[0])
             ctx.fail(r[0], r[1], {'smiles': s})
 
